@@ -2,6 +2,7 @@
 package c01
 
 import (
+	"errors"
 	"bytes"
 	"crypto/ecdh"
 	"crypto/rand"
@@ -52,6 +53,8 @@ type recipe struct {
 	Expect  string `json:"model_says"`
 	Got     string `json:"got"`
 	Path    string `json:"path"`
+	// TokenRemovalFails: the storage refuses to remove the token record during this request
+	TokenRemovalFails bool `json:"storage_fails_to_remove_token_record,omitempty"`
 }
 
 func pubOf(priv []byte) []byte {
@@ -541,11 +544,26 @@ func TestProp_Enrollment(t *testing.T) {
 				r.Expect = map[bool]string{true: "credentials", false: "refused"}[qualifies]
 
 				before := nodeSnap()
+				// now and then the storage refuses to remove the token record while a valid
+				// token is being used: the request may then be refused, but a token that
+				// yields credentials is spent all the same
+				removalFails := r.Path == "(b) activation token" && tok != nil && tok.status == "outstanding" && !tokExpired && rapid.IntRange(0, 4).Draw(t, "tokenRemovalFails") == 0
+				if removalFails {
+					w.Rec.Fault = func(i int, op vkit.Op) error {
+						if op.Kind == "remove" && op.Type == "ServerLedActivationToken" {
+							return &vkit.InjectedError{Inner: errors.New("storage cannot remove the record right now")}
+						}
+						return nil
+					}
+					r.TokenRemovalFails = true
+				}
 				var resp *types.FetchNodeCredentialsResponse
 				var err error
-				if pv, stack := vkit.Guard(func() {
+				pv, stack := vkit.Guard(func() {
 					resp, err = registration.FetchNodeCredentials(w.Ctx, w.Store, req, append(serverOpts(), nodeenrollment.WithMaximumServerLedActivationTokenLifetime(maxLife))...)
-				}); pv != nil {
+				})
+				w.Rec.Fault = nil
+				if pv != nil {
 					key := "C01/panic/other"
 					if strings.Contains(stack, "DecryptWrappedRegistrationInfo") {
 						key = "C01/panic/wrapped-registration-info"
@@ -568,6 +586,16 @@ func TestProp_Enrollment(t *testing.T) {
 				// token bookkeeping: a valid token is consumed by the attempt itself
 				if r.Path == "(b) activation token" && tok != nil && tok.status == "outstanding" && !tokExpired {
 					tok.status = "used"
+					if removalFails && !got {
+						// refused because of the storage fault: the token is still there
+						if w.Inner.Load(w.Ctx, &types.ServerLedActivationToken{Id: tok.id}) == nil {
+							tok.status = "outstanding"
+						}
+						if d := vkit.DiffSnap(before, nodeSnap()); d != "" {
+							vkit.Violate(t, prop, "C01/refused-request-changed-node-records", "a token request refused on a storage fault changed node records: "+d, detail)
+						}
+						return
+					}
 				}
 				if either {
 					rec.Count("storeonce_duplicate_with_storage_wrapper_observed", 1)
